@@ -36,7 +36,7 @@ def run(m, chk):
         "Static discharge of structural clauses of C18: normalize does not obtain the upper limit as x * (1/x) (rule R: IEEE arithmetic does not round that to 1 for every x, x / x does); shift / scale / normalize commit once, "
         "last (through the validated setter); generator results depend on degree, npts and cls / weights. Spacing, simplicity of interior knots and invariance of evaluation under reparametrisation are not decided."
     )
-    chk.decides = ["R (no multiplication by a reciprocal of an own element)", "COMMIT-LAST(shift, scale)", "DEP-MAY of the generators"]
+    chk.decides = ["R (no multiplication by a reciprocal of an own element)", "COMMIT-LAST(shift, scale)", "DEP-MAY of the generators", 'NORMALIZE-PATHS']
     chk.not_decided = ["equal spacing / simple interior knots", "N_i over s*U+a at s*u+a equals N_i over U at u"]
     q = KV + "normalize"
     ctx = r.root(q)
